@@ -169,7 +169,9 @@ _IS_INCLUDE_LINE = re.compile(
 
 
 def _is_fix_cont(line):
-    return line and len(line) > 5 and line[5] != " " and line[:5] == 5 * " "
+    # Fortran2008 3.3.3.3: any character other than blank or zero in
+    # column 6 marks a continuation line.
+    return line and len(line) > 5 and line[5] not in " 0" and line[:5] == 5 * " "
 
 
 def _is_fix_comment(line, isstrict, f2py_enabled):
